@@ -68,7 +68,7 @@ func getRetryerOfResource(resource string) *Retryer {
 			logging.Error(errors.New("nil outlier rule"), "Nil outlier rule in getRetryerOfResource()")
 		} else {
 			retryer.maxAttempts = rule.MaxRecoveryAttempts
-			retryer.interval = time.Duration(rule.RecoveryIntervalMs * 1e6)
+			retryer.interval = time.Duration(rule.RecoveryIntervalMs) * time.Millisecond
 			if rule.RecoveryCheckFunc != nil {
 				retryer.checkFunc = rule.RecoveryCheckFunc
 			} else {
